@@ -198,6 +198,12 @@ def cases(tier, seed):
             c.update(extra)
             if model in ("lin_matrix", "lin_callable") and not extra.get("dist"):
                 c["opscale"] = rnd.choice([1.0, 1.0, 1e-10, 1e10])      # extreme but legal operator magnitudes
+            # representation of the user-supplied operator / Jacobian (dense, scipy sparse formats, matrix-free)
+            takes = {"gen_jac": OPREPS, "lin_callable": OPREPS, "lin_matrix": OPREPS[:-1], "lin_matrix_default": OPREPS[:-1]}.get(model)
+            if model in ("wang", "pde_custom") and c.get("how") == "jac":
+                takes = OPREPS
+            if takes and not extra.get("dist") and "oprep" not in c:
+                c["oprep"] = rnd.choice(takes)
             out.append(c)
     # generic models with a direction-Jacobian product and callable-pair linear models: every geometry pair
     for model in ("gen_grad", "lin_callable"):
@@ -237,6 +243,17 @@ def cases(tier, seed):
                 if how == "none" and rt is not r1[0]:
                     continue
                 add("pde_custom", dt, rt, how=how)
+    # every operator representation with every model class that takes a user operator, on a few geometry pairs (exhaustive)
+    pairs = [(d1[0], r1[0]), (d1[13], r1[1]), (d1[11], r1[2]), (d1[1], r1[0])]
+    for orp in OPREPS:
+        for dt, rt in pairs:
+            add("gen_jac", dt, rt, oprep=orp)
+            add("pde_custom", dt, rt, how="jac", oprep=orp)
+            add("lin_callable", dt, rt, oprep=orp)
+            if orp != "linop":
+                add("lin_matrix", dt, rt, oprep=orp)
+        if orp != "linop":
+            add("lin_matrix_default", {"kind": "int"}, {"kind": "int"}, oprep=orp)
     # model applied to a distribution
     for model in ("gen_grad", "gen_jac", "lin_matrix", "lin_callable", "pde_custom", "pde_poisson"):
         for dt in (d1[0], d1[4], d1[9], d1[11], d1[13]):
@@ -331,7 +348,7 @@ def _classes():
             return self._ref.dfun(None).T @ direction.reshape(-1)
     class PDEJac(cuqi.pde.SteadyStateLinearPDE):
         def jacobian_wrt_parameter(self, wrt):
-            return self._op.jac(np.asarray(wrt, dtype=float).reshape(-1))
+            return _as_rep(self._op.jac(np.asarray(wrt, dtype=float).reshape(-1)), getattr(self, "_oprep", "dense"))
     class PDEGrad(cuqi.pde.SteadyStateLinearPDE):
         def gradient_wrt_parameter(self, direction, wrt):
             return direction @ self._op.jac(np.asarray(wrt, dtype=float).reshape(-1))
@@ -576,9 +593,10 @@ def build(case, rs):
         _rec("grad", direction, wrt)
         d = (np.asarray(direction) if strip else direction).reshape(-1)
         return (d @ op.jac(np.asarray(wrt, dtype=float).reshape(-1))).reshape(S_d)
+    oprep = case.get("oprep", "dense")
     def jac_core(wrt):
         _rec("grad", wrt)
-        return op.jac(np.asarray(wrt, dtype=float).reshape(-1))
+        return _as_rep(op.jac(np.asarray(wrt, dtype=float).reshape(-1)), oprep)
     fwd = _named(fwd_core, case.get("argname", "x"))
     M = cuqi.model
     if kind == "gen_grad" or (kind == "wang" and case["how"] == "grad"):
@@ -588,15 +606,22 @@ def build(case, rs):
     elif kind == "gen_nograd":
         b.model = M.Model(fwd, ran_g, dom_g)
     elif kind == "lin_matrix":
-        A = scipy.sparse.csr_matrix(op.Amat) if case.get("sparse") else op.Amat
+        A = _as_rep(op.Amat, oprep) if "oprep" in case else (scipy.sparse.csr_matrix(op.Amat) if case.get("sparse") else op.Amat)
         b.model = M.LinearModel(A, range_geometry=ran_g, domain_geometry=dom_g)
     elif kind == "lin_matrix_default":
-        A = scipy.sparse.csc_matrix(op.Amat) if case.get("sparse") else op.Amat
+        A = _as_rep(op.Amat, oprep) if "oprep" in case else (scipy.sparse.csc_matrix(op.Amat) if case.get("sparse") else op.Amat)
         b.model = M.LinearModel(A)
     elif kind == "lin_callable":
+        Aop = _as_rep(op.Amat, oprep)
         def adj_core(y):
             w = (np.asarray(y) if strip else y).reshape(-1)
-            return (op.Amat.T @ w).reshape(S_d)
+            return (Aop.rmatvec(np.asarray(w)) if oprep == "linop" else Aop.T @ w).reshape(S_d)
+        if oprep != "dense":      # the forward callable applies the operator in its own representation (matrix-free: matvec)
+            def fwd_rep(x):
+                _rec("fwd", x)
+                u = (np.asarray(x) if strip else x).reshape(-1)
+                return np.asarray(Aop.matvec(np.asarray(u)) if oprep == "linop" else Aop @ u).reshape(S_r)
+            fwd = _named(fwd_rep, case.get("argname", "x"))
         b.model = M.LinearModel(fwd, adj_core, ran_g, dom_g)
     elif kind == "pde_custom":
         cls = {"jac": C["PDEJac"], "grad": C["PDEGrad"], "none": C["PDEPlain"]}[case["how"]]
@@ -605,6 +630,7 @@ def build(case, rs):
             return op.operator(theta)
         pde = cls(pde_form, observation_map=lambda u: (op.Cobs @ u).reshape(S_r))
         pde._op = op
+        pde._oprep = oprep
         b.model = M.PDEModel(pde, ran_g, dom_g)
     b.traced_fwd = kind in ("gen_grad", "gen_jac", "gen_nograd", "lin_callable", "wang", "pde_custom")
     b.traced_grad = kind in ("gen_grad", "gen_jac", "wang")
@@ -614,6 +640,7 @@ def build(case, rs):
     b.dom_ident = dspec["kind"] in IDENT_KINDS
     b.dom_obj, b.ran_obj = b.model.domain_geometry, b.model.range_geometry
     b.dom_spec, b.ran_spec, b.same = dspec, rspec, same
+    b.lin_op = op.Amat if kind in ("lin_matrix", "lin_callable", "lin_matrix_default") else None
     return b
 
 def _wang_domain(t):
@@ -654,13 +681,48 @@ def _cfg(case, **kw):
         c["shared_grid"] = True
     c["strip"] = bool(case.get("strip"))
     c["cstyle"] = case.get("cstyle", "function")
+    c["oprep"] = case.get("oprep", "dense")
     if case.get("opscale", 1.0) != 1.0:
         c["opscale"] = "tiny" if case["opscale"] < 1 else "huge"
     c.update(kw)
     return c
 
 def _flat(v):
-    return np.asarray(v, dtype=float).reshape(-1)
+    try:
+        return np.asarray(v, dtype=float).reshape(-1)
+    except Exception:  # noqa  (judged separately by _not_numeric)
+        return np.full(max(1, int(np.size(np.asarray(v, dtype=object)))), np.nan)
+
+def _not_numeric(v):
+    """None when `v` is a real-valued numeric array/scalar, else a description (object arrays, sparse matrices, operators, ...)"""
+    try:
+        import scipy.sparse
+        if scipy.sparse.issparse(v):
+            return "a scipy sparse %s of shape %s" % (type(v).__name__, v.shape)
+    except Exception:  # noqa
+        pass
+    if hasattr(v, "samples"):
+        v = v.samples
+    try:
+        a = np.asarray(v)
+    except Exception as e:  # noqa
+        return "%s that cannot be converted to an array (%s)" % (type(v).__name__, e)
+    if a.dtype == object or a.dtype.kind not in "fiub":
+        return "%s with dtype %s and shape %s" % (type(v).__name__, a.dtype, a.shape)
+    return None
+
+OPREPS = ("dense", "csr", "csc", "coo", "dia", "csr_array", "linop")
+
+def _as_rep(Mat, oprep):
+    """the same linear operator in another of the representations users hand to the library"""
+    import scipy.sparse as sp
+    from scipy.sparse.linalg import aslinearoperator
+    Mat = np.asarray(Mat, dtype=float)
+    if oprep in (None, "dense"):
+        return Mat
+    if oprep == "linop":
+        return aslinearoperator(Mat)
+    return {"csr": sp.csr_matrix, "csc": sp.csc_matrix, "coo": sp.coo_matrix, "dia": sp.dia_matrix, "csr_array": sp.csr_array}[oprep](Mat)
 
 def _ro_view(a):
     """the same values as a read-only, non-contiguous view (Fortran-ordered for 2-D): a write through the argument raises"""
@@ -744,6 +806,11 @@ def run_case(case, ctx):
             if kind_ == "refused":
                 ctx.violation("forward_unexpectedly_refused", {**cfg, "exc": type(val).__name__}, detail=repr(val)); continue
             ctx.count("forward_value_checked")
+            if oprep_nd:
+                ctx.count("operator_rep_checked")
+            nn = _not_numeric(val)
+            if nn:
+                ctx.violation("forward_not_numeric", cfg, detail="forward returned " + nn); continue
             got = _flat(val)
             if got.shape != y_ref.shape or not ctx.close(got, y_ref, rtol=rtol, atol=1e-11 * _TS * _AS):
                 ctx.violation("forward_value_mismatch", cfg, detail="p=%s\nforward=%s\nreference par2fun->F->fun2par=%s" % (p.tolist(), got.tolist(), y_ref.tolist()))
@@ -811,6 +878,7 @@ def run_case(case, ctx):
     # ------------------------------------------------------------------ gradient
     _gradient_monitor(case, ctx, b, rs, rtol)
     _history_monitor(case, ctx, b, rs, rtol)
+    _adjoint_monitor(case, ctx, b, rs, rtol)
 
 
 def _wrap_problem(val, wrap, geom, par_dim, CUQIarray):
@@ -925,6 +993,11 @@ def _gradient_monitor(case, ctx, b, rs, rtol):
                         ctx.subkeys.add("gradrefuse:" + exp_ref)     # a class reached, not by itself a non-trivial case
                     continue
                 # a value: it must be J^T d, whatever the configuration
+                nn = _not_numeric(val)
+                if nn:
+                    ctx.violation("gradient_not_numeric", cfg, detail="gradient returned %s; a vector of %d parameters is documented" % (nn, ref.dom.par_dim)); continue
+                if case.get("oprep", "dense") != "dense":
+                    ctx.count("operator_rep_checked")
                 got = _flat(val)
                 if g_exp is None:
                     ctx.violation("gradient_not_refused", cfg, detail="no parameter-to-parameter map exists (range geometry without fun2par) but gradient returned a value")
@@ -967,6 +1040,69 @@ def _gradient_monitor(case, ctx, b, rs, rtol):
                 ctx.violation("gradient_samples_not_refused", _cfg(case, which=which), detail="gradient accepted a Samples %s and returned %s" % (which, core.short(val, 100)))
             else:
                 ctx.refused("gradient:samples", val)
+
+
+def _adjoint_monitor(case, ctx, b, rs, rtol):
+    """LinearModel.adjoint (documented: input converted to function values with the range geometry, the operator's
+    transpose applied, output converted to parameters with the domain geometry) on every representation of its input:
+    numeric vector of domain par_dim entries, equal across representations, wrapped like the input."""
+    import cuqi
+    model, ref = b.model, b.ref
+    if b.lin_op is None or not isinstance(model, cuqi.model.LinearModel):
+        return
+    CUQIarray, Samples = cuqi.array.CUQIarray, cuqi.samples.Samples
+    dom_g, ran_g = b.dom_obj, b.ran_obj
+    A = b.lin_op
+    nd_oprep = case.get("oprep", "dense") != "dense"
+    for _ in range(2):
+        y = rs.uniform(-1, 1, size=ref.ran.par_dim)
+        yf = np.asarray(ref.ran.par2fun(y), dtype=float)
+        want = None
+        if ref.dom.has_fun2par:
+            z = (A.T @ yf.reshape(-1)).reshape(ref.dom.fun_shape)
+            if not (ref.dom.kind == "mapped" and not np.all(np.isfinite(np.asarray(ref.dom.fun2par(z), dtype=float)))):
+                want = np.asarray(ref.dom.fun2par(z), dtype=float).reshape(-1)
+        reps = [("nd_par", lambda: model.adjoint(y.copy()), "nd"), ("nd_fun", lambda: model.adjoint(yf.copy(), is_par=False), "nd"),
+                ("nd_par_ro_view", lambda: model.adjoint(_ro_view(y)), "nd"),
+                ("cq_par", lambda: model.adjoint(CUQIarray(y.copy(), is_par=True, geometry=ran_g)), "cq"),
+                ("cq_fun", lambda: model.adjoint(CUQIarray(yf.copy(), is_par=False, geometry=ran_g)), "cq"),
+                ("samples", lambda: model.adjoint(Samples(np.column_stack([y, y]), geometry=ran_g)), "samples")]
+        first = None
+        for name, call, wrap in reps:
+            cfg = _cfg(case, rep=name, monitor="adjoint")
+            kind_, val = core.outcome(call)
+            if kind_ == "crashed":
+                ctx.violation("crash", {**cfg, "exc": type(val).__name__}, detail=repr(val)); continue
+            if kind_ == "refused":
+                if ref.dom.has_fun2par and want is not None:
+                    ctx.violation("adjoint_unexpectedly_refused", {**cfg, "exc": type(val).__name__}, detail=repr(val))
+                else:
+                    ctx.refused("adjoint without domain fun2par", val)
+                continue
+            if want is None:
+                continue                                  # (inverse map undefined on these values: nothing to compare with)
+            ctx.count("adjoint_value_checked")
+            if nd_oprep:
+                ctx.count("operator_rep_checked")
+            nn = _not_numeric(val)
+            if nn:
+                ctx.violation("adjoint_not_numeric", cfg, detail="adjoint returned " + nn); continue
+            if wrap == "samples":
+                if not isinstance(val, Samples) or np.asarray(val.samples).shape != (ref.dom.par_dim, 2):
+                    ctx.violation("adjoint_wrapping", cfg, detail="Samples in, %s out" % type(val).__name__); continue
+                got = np.asarray(val.samples, dtype=float)[:, 1]
+            else:
+                got = _flat(val)
+                why = _wrap_problem(val, wrap, dom_g, ref.dom.par_dim, CUQIarray)
+                if why:
+                    ctx.violation("adjoint_wrapping", cfg, detail=why)
+            sc = max(_AS, float(np.max(np.abs(want))))
+            if got.shape != want.shape or not np.all(np.abs(got - want) <= rtol * 10 * sc + 1e-11 * _TS * _AS):
+                ctx.violation("adjoint_value_mismatch", cfg, detail="adjoint(y)=%s, fun2par_domain(A^T par2fun_range(y))=%s" % (got.tolist(), want.tolist()))
+            if first is None:
+                first = got
+            elif got.shape != first.shape or not np.all(np.abs(got - first) <= rtol * 10 * sc + 1e-11 * _TS * _AS):
+                ctx.violation("adjoint_representation_mismatch", cfg, detail="%s gives %s, ndarray parameters give %s" % (name, got.tolist(), first.tolist()))
 
 
 def _history_monitor(case, ctx, b, rs, rtol):
@@ -1021,6 +1157,8 @@ def _history_monitor(case, ctx, b, rs, rtol):
             return                                           # refusals of single calls are judged by the forward monitor
         y_ref = ref.forward(x)
         ctx.count("forward_history_checked")
+        if _not_numeric(val):
+            ctx.violation("forward_not_numeric", cfg, detail="forward returned " + _not_numeric(val)); return
         if not ctx.close(_flat(val), y_ref, rtol=rtol, atol=1e-11 * _TS * _AS):
             ctx.violation("forward_history_mismatch", cfg, detail="call %d of a sequence on one model, input buffer updated in place: forward=%s, reference at the current values=%s"
                           % (k, _flat(val).tolist(), y_ref.tolist()))
@@ -1040,6 +1178,8 @@ def _history_monitor(case, ctx, b, rs, rtol):
         sc = max(_AS, float(np.max(np.abs(g_exp))))
         tol = (rtol * 10 * sc + 1e-11 * _TS * _AS) if ref.jac(x) is not None else 1e-6 * _TS * sc
         ctx.count("gradient_history_checked")
+        if _not_numeric(val):
+            ctx.violation("gradient_not_numeric", cfg, detail="gradient returned " + _not_numeric(val)); return
         got = _flat(val)
         if got.shape != g_exp.shape or not np.all(np.isfinite(got)) or not np.all(np.abs(got - g_exp) <= tol):
             ctx.violation("gradient_history_mismatch", cfg,
